@@ -835,6 +835,19 @@ impl PeerHandler {
         self.run().await;
     }
 
+    /// What this task was configured with: "addr own_id peer_id|- info_hash pieces_num" (hex).
+    pub fn verif_identity(&self) -> String {
+        let hex = |b: &[u8]| b.iter().map(|x| format!("{:02x}", x)).collect::<String>();
+        format!(
+            "{} {} {} {} {}",
+            self.connection.addr,
+            hex(&self.own_id),
+            self.peer_id.map(|id| hex(&id)).unwrap_or("-".to_string()),
+            hex(&self.info_hash),
+            self.pieces_num
+        )
+    }
+
     /// (peer chokes us, peer interested, keep-alive ticks, deferred frames, piece being
     /// downloaded, piece loaded for upload, bytes buffered in the connection)
     pub fn verif_state(&self) -> (bool, bool, u32, usize, Option<usize>, Option<usize>, usize) {
